@@ -310,6 +310,10 @@ class Reader:
 
         ioffset = int(offset)
         iwidth = int(width)
+        if iwidth > 131070:
+            # No generated token can need more digits than the hex text of the
+            # largest possible RDATA (65535 octets).
+            raise dns.exception.SyntaxError(f"invalid $GENERATE width {width}")
 
         if sign not in ["+", "-"]:
             raise dns.exception.SyntaxError(f"invalid offset sign {sign}")
